@@ -206,7 +206,9 @@ func scenarioSched(c *vrun.Ctx) {
 				li, _ := strconv.Atoi(op[1:])
 				switch op[0] {
 				case 'S':
-					removers[li] = e.Subscribe(func(v int) { lastVals[li] = v; deliveredCount[li]++ })
+					// a real component's callback has scheduling points of its own (an atomic store, a
+					// channel send, a lock): model that with a yield before the value is applied
+					removers[li] = e.Subscribe(func(v int) { vsched.Yield("listener applies value"); lastVals[li] = v; deliveredCount[li]++ })
 				case 'U':
 					if removers[li] != nil {
 						removers[li]()
